@@ -128,7 +128,7 @@ pub struct JoinClause {
 pub type TimestampType = DateTime<Local>;
 pub type IntervalType = Duration;
 
-#[derive(Debug, PartialEq, PartialOrd, Clone, Eq, Hash, Ord)]
+#[derive(Debug, Clone)]
 pub enum Value {
     Null,
     Int(i64),
@@ -349,6 +349,80 @@ impl Value {
             Value::Array(_, value) => serde_json::Value::Array(value.iter().map(|x| x.json_value()).collect()),
             Value::Timestamp(_) => serde_json::Value::String(self.to_string()),
             Value::Interval(_) => serde_json::Value::String(self.to_string())
+        }
+    }
+}
+
+// Equality, order and hashing agree with Value::compare: an INT and a REAL are compared (and hashed) by their numeric value,
+// not by their type. Values of different types are ordered by type, NULL first.
+impl Value {
+    fn type_rank(&self) -> u8 {
+        match self {
+            Value::Null => 0,
+            Value::Int(_) | Value::Float(_) => 1,
+            Value::Bool(_) => 2,
+            Value::String(_) => 3,
+            Value::Array(_, _) => 4,
+            Value::Timestamp(_) => 5,
+            Value::Interval(_) => 6
+        }
+    }
+}
+
+impl PartialEq for Value {
+    fn eq(&self, other: &Self) -> bool {
+        self.cmp(other) == Ordering::Equal
+    }
+}
+
+impl Eq for Value {}
+
+impl PartialOrd for Value {
+    fn partial_cmp(&self, other: &Self) -> Option<Ordering> {
+        Some(self.cmp(other))
+    }
+}
+
+impl Ord for Value {
+    fn cmp(&self, other: &Self) -> Ordering {
+        match (self, other) {
+            (Value::Null, Value::Null) => Ordering::Equal,
+            (Value::Int(x), Value::Int(y)) => x.cmp(y),
+            (Value::Float(x), Value::Float(y)) => x.cmp(y),
+            (Value::Int(x), Value::Float(y)) => compare_int_float(*x, y.0),
+            (Value::Float(x), Value::Int(y)) => compare_int_float(*y, x.0).reverse(),
+            (Value::Bool(x), Value::Bool(y)) => x.cmp(y),
+            (Value::String(x), Value::String(y)) => x.cmp(y),
+            (Value::Array(x_type, x), Value::Array(y_type, y)) => x_type.cmp(y_type).then_with(|| x.cmp(y)),
+            (Value::Timestamp(x), Value::Timestamp(y)) => x.cmp(y),
+            (Value::Interval(x), Value::Interval(y)) => x.cmp(y),
+            (x, y) => x.type_rank().cmp(&y.type_rank())
+        }
+    }
+}
+
+impl Hash for Value {
+    fn hash<H: Hasher>(&self, state: &mut H) {
+        self.type_rank().hash(state);
+        match self {
+            Value::Null => {}
+            Value::Int(x) => x.hash(state),
+            Value::Float(x) => {
+                // A REAL that equals an INT hashes like that INT
+                if x.0.fract() == 0.0 && x.0 >= -9223372036854775808.0 && x.0 < 9223372036854775808.0 {
+                    (x.0 as i64).hash(state)
+                } else {
+                    x.hash(state)
+                }
+            }
+            Value::Bool(x) => x.hash(state),
+            Value::String(x) => x.hash(state),
+            Value::Array(element_type, x) => {
+                element_type.hash(state);
+                x.hash(state)
+            }
+            Value::Timestamp(x) => x.hash(state),
+            Value::Interval(x) => x.hash(state)
         }
     }
 }
